@@ -83,6 +83,37 @@ class _VirtualSelector(selectors.SelectSelector):
         return []
 
 
+class _SeqTimerHandle(asyncio.TimerHandle):
+    """timers that are due at the same instant fire in the order in which they were created (asyncio leaves ties to the heap)"""
+
+    __slots__ = ("_seq",)
+
+    def __lt__(self, other):
+        if isinstance(other, _SeqTimerHandle):
+            return (self._when, self._seq) < (other._when, other._seq)
+        return NotImplemented
+
+    def __le__(self, other):
+        if isinstance(other, _SeqTimerHandle):
+            return (self._when, self._seq) <= (other._when, other._seq)
+        return NotImplemented
+
+    def __gt__(self, other):
+        if isinstance(other, _SeqTimerHandle):
+            return (self._when, self._seq) > (other._when, other._seq)
+        return NotImplemented
+
+    def __ge__(self, other):
+        if isinstance(other, _SeqTimerHandle):
+            return (self._when, self._seq) >= (other._when, other._seq)
+        return NotImplemented
+
+    def __eq__(self, other):
+        return self is other
+
+    __hash__ = asyncio.TimerHandle.__hash__
+
+
 class VirtualLoop(asyncio.SelectorEventLoop):
     def __init__(self, clock):
         sel = _VirtualSelector(clock)
@@ -93,6 +124,17 @@ class VirtualLoop(asyncio.SelectorEventLoop):
 
     def time(self):
         return self._vclock.now
+
+    def call_at(self, when, callback, *args, context=None):
+        # as BaseEventLoop.call_at, with a FIFO tie-break for equal instants: the order in which one simulated process' timers fire
+        # must not depend on which other timers happen to sit in the heap
+        self._check_closed()
+        timer = _SeqTimerHandle(when, callback, args, self, context)
+        self._timer_seq = getattr(self, "_timer_seq", 0) + 1
+        timer._seq = self._timer_seq
+        heapq.heappush(self._scheduled, timer)
+        timer._scheduled = True
+        return timer
 
     # A re-entrancy-safe rendering of BaseEventLoop._run_once (no debug/slow-callback logging). It is needed because
     # run_executor_work() below runs ready callbacks from *inside* a callback (an actor handler) to model thread pre-emption.
